@@ -21,6 +21,17 @@ class Instance:
 
 
 class BuiltinsMixin:
+    def begin_binder(self):
+        if self.binder_depth == 0:
+            self._bcount = 0
+
+    def bound_const(self, prefix, sort):
+        """A constant to be abstracted by an enclosing binder.  Names are deterministic per top-level expression
+        (numbered in evaluation order) so that the same specification evaluated twice yields identical terms."""
+        k = self._bcount
+        self._bcount += 1
+        return z3.Const(f"bv{k}_{prefix}", sort)
+
     # ---- builtin functions --------------------------------------------------------------
     def call_builtin(self, s, fn, args, kwargs, node):
         name = getattr(fn, "__name__", str(fn))
@@ -212,6 +223,7 @@ class BuiltinsMixin:
         return self._anyall(s, args[0], False)
 
     def _anyall(self, s, v, is_any):
+        self.begin_binder()
         if v.is_py:
             items = [x if isinstance(x, Val) else self.lift(x) for x in v.t]
             ts = [self.truth(i) for i in items]
@@ -222,13 +234,13 @@ class BuiltinsMixin:
             ts = [self.truth(self.tuple_get(v, i)) for i in range(len(v.ty.args))]
             return [(s, Val(BOOL, z3.Or(*ts) if is_any else z3.And(*ts)))]
         if v.ty.kind == "seq":
-            j = z3.Int(fresh_name("aj"))
+            j = self.bound_const("aj", z3.IntSort())
             body = self.truth(Val(v.ty.args[0], v.t[j]))
             rng = z3.And(0 <= j, j < z3.Length(v.t))
             q = z3.Exists([j], z3.And(rng, body)) if is_any else z3.ForAll([j], z3.Implies(rng, body))
             return [(s, Val(BOOL, q))]
         if v.ty.kind == "set":
-            e = z3.Const(fresh_name("ae"), self.reg.sort(v.ty.args[0]))
+            e = self.bound_const("ae", self.reg.sort(v.ty.args[0]))
             body = self.truth(Val(v.ty.args[0], e))
             q = z3.Exists([e], z3.And(v.t[e], body)) if is_any else z3.ForAll([e], z3.Implies(v.t[e], body))
             return [(s, Val(BOOL, q))]
@@ -556,6 +568,13 @@ class BuiltinsMixin:
         if z3.is_string_value(sep.t) and sep.t.as_string() != "":
             self.axioms.append((res == z3.StringVal("")) == z3.Or(n == 0, z3.And(n == 1, seq.t[0] == z3.StringVal(""))))
         self.axioms.append(z3.ForAll([j], z3.Implies(z3.And(0 <= j, j < n), z3.Contains(res, seq.t[j])), patterns=[seq.t[j]]))
+        # element-set view: a non-empty element makes the result non-empty; no element at all makes it empty
+        el = self.elems_of(seq)
+        x = z3.String(fresh_name("jx"))
+        empty = self.empty_set(STR).t
+        self.axioms.append(z3.ForAll([x], z3.Implies(z3.And(z3.Select(el, x), x != z3.StringVal("")), res != z3.StringVal(""))))
+        self.axioms.append(z3.Implies(el == empty, res == z3.StringVal("")))
+        self.axioms.append((el == empty) == (n == 0))
         return Val(STR, res)
 
     def m_str_lower(self, s, r, args, kw, node, bm):
@@ -700,9 +719,21 @@ class BuiltinsMixin:
         return [(s, r)]
 
     # ---- comprehensions ------------------------------------------------------------------------
-    def comp_instances(self, generators, st):
+    setlike = False
+
+    def comp_instances(self, generators, st, setlike=False):
+        prev = self.setlike
+        self.setlike = setlike
+        try:
+            return self._comp_instances_outer(generators, st)
+        finally:
+            self.setlike = prev
+
+    def _comp_instances_outer(self, generators, st):
         """Expand comprehension generators into symbolic instances (state-with-env, bound vars, guard)."""
         insts = [Instance(st.copy(), [], z3.BoolVal(True))]
+        if self.binder_depth == 0:
+            self._bcount = 0
         self.binder_depth += 1
         try:
             return self._comp_instances(generators, insts)
@@ -731,11 +762,11 @@ class BuiltinsMixin:
         if it.is_py and isinstance(it.t, tuple) and len(it.t) == 2 and it.t[0] in ("items", "values", "enumerate"):
             tag, d = it.t
             if tag == "enumerate":
-                j = z3.Int(fresh_name("ci"))
+                j = self.bound_const("ci", z3.IntSort())
                 s2 = st.copy()
                 self.assign_target(s2, target, self.mk_pair(Val(INT, j), self.seq_nth(d, j)))
                 return [(s2, [j], z3.And(0 <= j, j < z3.Length(d.t)))]
-            k = z3.Const(fresh_name("ck"), self.reg.sort(d.ty.args[0]))
+            k = self.bound_const("ck", self.reg.sort(d.ty.args[0]))
             kv = Val(d.ty.args[0], k)
             s2 = st.copy()
             if tag == "items":
@@ -745,7 +776,7 @@ class BuiltinsMixin:
             return [(s2, [k], self.dict_has(d, kv))]
         if it.is_py and isinstance(it.t, tuple) and it.t and it.t[0] == "range":
             lo, hi = it.t[1], it.t[2]
-            j = z3.Int(fresh_name("cr"))
+            j = self.bound_const("cr", z3.IntSort())
             s2 = st.copy()
             self.assign_target(s2, target, Val(INT, j))
             return [(s2, [j], z3.And(lo <= j, j < hi))]
@@ -775,13 +806,23 @@ class BuiltinsMixin:
                 return res
         if k == "set" or k == "dict":
             et = it.ty.args[0]
-            e = z3.Const(fresh_name("ce"), self.reg.sort(et))
+            e = self.bound_const("ce", self.reg.sort(et))
             s2 = st.copy()
             self.assign_target(s2, target, Val(et, e))
             guard = it.t[e] if k == "set" else self.dict_has(it, Val(et, e))
             return [(s2, [e], guard)]
+        if k == "seq" and self.setlike:
+            # order and multiplicity do not matter for the consumer: iterate the element-set view
+            et = it.ty.args[0]
+            e = self.bound_const("ce", self.reg.sort(et))
+            s2 = st.copy()
+            self.assign_target(s2, target, Val(et, e))
+            from .state import _symbols
+            if not any(n.startswith("bv") for n in _symbols(it.t)):
+                self.seq_elems(it)      # closed term: state the index <-> element-set link once
+            return [(s2, [e], z3.Select(self.elems_of(it), e))]
         if k in ("seq", "str"):
-            j = z3.Int(fresh_name("ci"))
+            j = self.bound_const("ci", z3.IntSort())
             s2 = st.copy()
             self.assign_target(s2, target, self.seq_nth(it, j))
             return [(s2, [j], z3.And(0 <= j, j < z3.Length(it.t)))]
@@ -820,7 +861,7 @@ class BuiltinsMixin:
         (1) identity element over one symbolic set with a guard -> array lambda (quantifier-free membership);
         (2) otherwise a canonical constant named after the alpha-normalised defining terms (so the same
             comprehension over the same heap is the same term) with the two membership axioms."""
-        insts = self.comp_instances(generators, st)
+        insts = self.comp_instances(generators, st, setlike=True)
         vals = [(i, self.ev_under_binder(elt, i.st)) for i in insts]
         vals = [(i, v if not v.is_py else self.lift(v.t)) for i, v in vals]
         if not vals:
@@ -987,7 +1028,7 @@ class BuiltinsMixin:
 
     def _call_on_generator(self, fname, gen, st, node):
         if fname in ("any", "all"):
-            insts = self.comp_instances(gen.generators, st)
+            insts = self.comp_instances(gen.generators, st, setlike=True)
             parts = []
             for i in insts:
                 t = self.truth(self.ev_under_binder(gen.elt, i.st))
@@ -1121,12 +1162,13 @@ def _sf_use(self, n, st):
     given = [self.ev_pure(a, st) for a in n.args[1:]]
     names = list(lem.types)
     env, bound = {}, []
+    self.begin_binder()
     for k, p in enumerate(names):
         ty = self.reg.parse(lem.types[p])
         if k < len(given):
             env[p] = self.coerce(given[k], ty)
         else:
-            c = z3.Const(fresh_name("u_" + p), self.reg.sort(ty))
+            c = self.bound_const("u_" + p, self.reg.sort(ty))
             bound.append(c)
             env[p] = Val(ty, c)
     base = State()
@@ -1154,9 +1196,10 @@ def _sf_forall(self, n, st, exists=False):
         raise Unsupported("forall: one type per bound variable")
     s2 = st.copy()
     bound = []
+    self.begin_binder()
     for p, tn in zip(params, tynodes):
         ty = self.reg.parse(tn.value if isinstance(tn, ast.Constant) else tn)
-        c = z3.Const(fresh_name("q_" + p), self.reg.sort(ty))
+        c = self.bound_const("q_" + p, self.reg.sort(ty))
         bound.append(c)
         s2.env[p] = Val(ty, c)
     body = self.truth(self.ev_under_binder(lam.body, s2))
